@@ -1091,7 +1091,198 @@ def gen_recv(r, focus="c02", allow_d10=True):
     gen_wire(case)
     gen_rereg(case)
     gen_life(case)
+    gen_params(case)
     return case
+
+
+PARAMS_P = 0.2     # fraction of the receive cases whose task functions TAKE ARGUMENTS from the message, with annotated parameters
+NOPARSE_P = 0.12   # fraction of those run with parameter validation switched off (--no-parse / validate_params=False)
+_TD = [{"user_id": 1, "amount": "7"}, {"user_id": "2", "amount": 9}, {"user_id": 3, "amount": 4}, {"user_id": "x"}, {}, 5]
+# annotation kind (driver: ANNOT) -> (group for the evidence, weight, JSON values a message may carry for such a parameter:
+# of the annotated type, convertible to it, not convertible - then the function gets the value as it was sent)
+PARAM_KINDS = {
+    "int": ("class", 6, ["5", 5, "abc", 0, True]), "str": ("class", 4, ["s", 5, ""]), "float": ("class", 2, ["1.5", 2, "x"]),
+    "bool": ("class", 2, ["true", 1, True, False, "maybe"]), "bytes": ("class", 1, ["abc"]),
+    "list": ("class", 1, [["1", 2], []]), "dict": ("class", 1, [{"a": 1}, {}]),
+    "Any": ("special-form", 1, [{"a": 1}, 5]), "object": ("special-form", 1, [1, "s"]), "None": ("special-form", 1, [1]),
+    "TypeVar": ("special-form", 1, [5]), "Type[int]": ("special-form", 1, [5]), "Callable": ("special-form", 1, [5]),
+    "Optional[int]": ("generic-alias", 3, ["5", 5, "abc"]), "Union[int,str]": ("generic-alias", 2, ["5", 5, [1]]),
+    "int|None": ("generic-alias", 2, ["5", "abc"]), "List[int]": ("generic-alias", 3, [["1", 2], ["a"], 5]),
+    "list[int]": ("generic-alias", 2, [["1", 2], []]), "Dict[str,int]": ("generic-alias", 2, [{"a": "1"}, {"a": "x"}]),
+    "Tuple[int,str]": ("generic-alias", 1, [["1", "a"], [1]]), "Set[int]": ("generic-alias", 1, [["1", 2]]),
+    "FrozenSet[int]": ("generic-alias", 1, [["1", 2]]), "Sequence[int]": ("generic-alias", 1, [["1", 2]]),
+    "Mapping[str,int]": ("generic-alias", 1, [{"a": "1"}]), "List[Dict[str,int]]": ("generic-alias", 1, [[{"a": "1"}], [5]]),
+    "Optional[List[Optional[int]]]": ("generic-alias", 1, [["1", None]]),
+    "TypedDict": ("TypedDict", 8, _TD), "TypedDict(total=False)": ("TypedDict", 3, [{"a": "1"}, {}, {"b": 5}]),
+    "TypedDict(nested)": ("TypedDict", 2, [{"inner": {"user_id": 1, "amount": "7"}, "tag": "t"}, {"inner": 5}]),
+    "TypedDict(Required/NotRequired)": ("TypedDict", 2, [{"a": "1"}, {"b": "s"}]),
+    "typing_extensions.TypedDict": ("TypedDict", 2, [{"a": "1"}, {"a": 1}]),
+    "List[TypedDict]": ("generic-alias", 2, [[{"user_id": 1, "amount": "7"}], []]),
+    "Optional[TypedDict]": ("generic-alias", 2, _TD[:3]),
+    "Protocol": ("Protocol", 4, [{"a": 1}, 5, "s"]), "Protocol(runtime_checkable)": ("Protocol", 2, [{"a": 1}, 5]),
+    "NewType": ("NewType", 3, ["5", 5, "abc"]), "Literal[str]": ("Literal", 2, ["a", "c"]), "Literal[int]": ("Literal", 2, [1, "1", 3]),
+    "Annotated[int,str]": ("Annotated", 2, ["5", 5]), "Annotated[int,Field]": ("Annotated", 2, ["5", -1]),
+    "Annotated[int,dict]": ("Annotated", 1, ["5"]), "Annotated[TypedDict,str]": ("Annotated", 2, _TD[:4]),
+    "plain-class": ("class-without-schema", 2, [{"a": 1}, 5]), "plain-generic[int]": ("class-without-schema", 1, [{"item": "1"}]),
+    "BaseModel": ("model", 3, [{"a": "1"}, {"b": 2}, {"a": 1, "b": "y"}]), "BaseModel[int](generic)": ("model", 1, [{"item": "1"}]),
+    "dataclass": ("model", 2, [{"a": "1"}, {"b": 2}]), "Enum": ("model", 1, ["red", "green"]), "IntEnum": ("model", 1, [1, "2", 5]),
+    "NamedTuple": ("model", 1, [[1, "a"], ["1", "a"], [1]]),
+    "datetime": ("stdlib-value-class", 1, ["2024-01-02T03:04:05", "never"]), "date": ("stdlib-value-class", 1, ["2024-01-02"]),
+    "timedelta": ("stdlib-value-class", 1, [5, "P1D"]), "UUID": ("stdlib-value-class", 1, ["12345678-1234-5678-1234-567812345678", "u"]),
+    "Decimal": ("stdlib-value-class", 1, ["1.5", 2]),
+    "metaclass(__instancecheck__ always True)": ("metaclass-instancecheck", 2, ["5", 5]),
+    "metaclass(__instancecheck__ always False)": ("metaclass-instancecheck", 1, ["5", 5]),
+    "metaclass(__instancecheck__ raises)": ("metaclass-instancecheck", 3, ["5", 5, "abc"]),
+    "ABC(int registered)": ("metaclass-instancecheck", 2, ["5", 5]),
+    "'int'": ("forward-reference", 2, ["5", 5]), "'Payload'(TypedDict)": ("forward-reference", 3, _TD[:4]),
+    "'List[Payload]'": ("forward-reference", 1, [[{"user_id": 1, "amount": "7"}]]),
+    "'Optional[Runner]'(Protocol)": ("forward-reference", 1, [{"a": 1}]),
+}
+PARAM_FRESH = ("TypedDict", "TypedDict(total=False)", "Protocol", "BaseModel", "dataclass", "metaclass(__instancecheck__ raises)",
+               "NewType")
+PARAM_STAR = ("int", "str", "Optional[int]", "TypedDict", "List[int]")
+PARAM_RET = ("int", "TypedDict", "Protocol", "Optional[int]", "None", "'Payload'(TypedDict)")
+
+
+def gen_param_list(rw):
+    kinds = sorted(PARAM_KINDS)
+    weights = [PARAM_KINDS[k][1] for k in kinds]
+    n = rw.choice([1, 1, 1, 2, 2, 3])
+    npos = rw.randint(0, n)
+    star = rw.random() < .1
+    first_default = rw.randint(0, npos) if not star else npos      # positional parameters from here on have a default
+    out = []
+    for k in range(n):
+        ann = rw.choices(kinds, weights)[0]
+        p = dict(ann=ann, val=rw.choice(PARAM_KINDS[ann][2]) if rw.random() >= .08 else None)
+        if k < npos:
+            p["by"] = "pos"
+            if k >= first_default:
+                p["default"] = True
+        else:
+            p["by"] = "kwonly" if star else rw.choice(["kw", "kw", "kw", "kwonly", "absent"])
+        if ann in PARAM_FRESH and rw.random() < .25:
+            p["fresh"] = True
+        out.append(p)
+    if star:
+        ann = rw.choice(PARAM_STAR)
+        out.insert(npos, dict(ann=ann, by="star", val=[rw.choice(PARAM_KINDS[ann][2]) for _ in range(rw.choice([0, 1, 2]))]))
+    return out
+
+
+def gen_params(case):
+    """task functions that TAKE ARGUMENTS (driver: param_sources / call_args / ANNOT).  Until now every task function of the
+    pipeline family had no parameter besides its dependency and every message carried args = [], kwargs = {}: the receiver's
+    parameter validation (parse_params -> taskiq.compat.parse_obj_as -> pydantic, run by run_task BEFORE its try-block) never
+    had a value to look at.  In a params case most valid messages get M["params"]:
+      list    1-3 parameters {ann, val, by}: ann = an annotation kind of PARAM_KINDS - plain classes, generic aliases,
+              Optional / Union / X | None, TypedDict classes (total=False, nested, Required / NotRequired, typing_extensions),
+              Protocol classes (plain, runtime_checkable), NewType, Literal, Annotated, pydantic models / dataclasses / enums /
+              NamedTuple, stdlib value classes, classes without any schema, classes whose METACLASS defines __instancecheck__
+              (always True / always False / raising / an ABC with a registered virtual subclass), special forms (Any, TypeVar,
+              Type[int], Callable, None), forward references written as strings; val = the JSON value the message carries
+              (of the type, convertible, NOT convertible - passed on as sent -, or null); by = pos (in args) | kw | kwonly (in
+              kwargs) | absent (not sent: the default applies) | star (0-2 further positional values taken by *rest);
+              default: a positional parameter that also has a default; fresh: a NEW class per task function (defined inside a
+              factory) instead of the module-level one shared by every task of the process
+      future  the function's module has `from __future__ import annotations`: every annotation is a string
+      ret     a return annotation of one of these kinds
+    case["no_parse"]: validation switched off (Receiver(validate_params=False); `--no-parse` on the command line).
+    The functions registered under one NAME (re-registration groups) take the same parameters (the receiver keeps signature
+    and type hints per task name, see gen_rereg).  Every kind was checked on the unchanged tree: callback completes with each
+    of them.  Nothing of this is in the statements: the body, the outcome, the hooks, the acknowledgement are what they
+    were - the oracles and the model's configuration are untouched.  Own generator, seeded with the case built so far."""
+    rw = random.Random(zlib.crc32(("params" + json.dumps(case, sort_keys=True)).encode()))
+    if rw.random() >= PARAMS_P:
+        return
+    if rw.random() < NOPARSE_P:
+        case["no_parse"] = True
+        if case.get("cli") is not None:
+            case["cli"] = list(case["cli"]) + ["--no-parse"]
+    groups = rereg_groups(case)
+    member = {}
+    for j, fs in groups.items():
+        for i in [j] + fs:
+            member[i] = j
+    shared = {}
+    some = False
+    for i, M in enumerate(case["msgs"]):
+        if M["kind"] != "ok":
+            continue
+        g = member.get(i)
+        if g is not None and g in shared:
+            if shared[g] is not None:
+                M["params"] = json.loads(json.dumps(shared[g]))
+            continue
+        P = None
+        if rw.random() < .8:
+            P = dict(list=gen_param_list(rw))
+            if rw.random() < .2:
+                P["future"] = True
+            if rw.random() < .15:
+                P["ret"] = rw.choice(PARAM_RET)
+            M["params"] = P
+            some = True
+        if g is not None:
+            shared[g] = P
+    if not some:
+        case.pop("no_parse", None)
+        if case.get("cli") is not None and case["cli"][-1:] == ["--no-parse"]:
+            case["cli"] = case["cli"][:-1]
+
+
+def param_raises_on_isinstance(p):
+    """(evidence) annotations that are classes for which isinstance() raises TypeError"""
+    return p["ann"] in ("TypedDict", "TypedDict(total=False)", "TypedDict(nested)", "TypedDict(Required/NotRequired)",
+                        "typing_extensions.TypedDict", "Annotated[TypedDict,str]", "Protocol", "'Payload'(TypedDict)",
+                        "metaclass(__instancecheck__ raises)")
+
+
+def count_params(rep, case, obs):
+    if case["type"] != "recv":
+        return
+    if not any(M.get("params") for M in case["msgs"]):
+        rep.count("task-parameters:none(functions take no message arguments, args=[] kwargs={})")
+        return
+    rep.count("task-parameters:case-with-annotated-parameters")
+    rep.count("task-parameters:validation:" + ("off(--no-parse)" if case.get("no_parse") and case.get("cli") is not None else
+                                               "off(validate_params=False)" if case.get("no_parse") else "on(default)"))
+    got = {g[0]: g[1:] for g in obs.get("got") or []}
+    at = case.get("ack_type") or "default(when_saved)"
+    for i, M in enumerate(case["msgs"]):
+        P = M.get("params")
+        if not P:
+            continue
+        rep.count("task-parameters:function-with-%d" % len(P["list"]))
+        if P.get("future"):
+            rep.count("task-parameters:from-__future__-import-annotations")
+        if P.get("ret"):
+            rep.count("task-parameters:return-annotation:" + P["ret"])
+        if M.get("name_of") is not None:
+            rep.count("task-parameters:function-re-registered-under-a-known-name")
+        valued = False
+        for p in P["list"]:
+            rep.count("task-parameter:annotation:" + p["ann"])
+            rep.count("task-parameter:annotation-group:" + PARAM_KINDS[p["ann"]][0])
+            has = p["by"] != "absent" and p["val"] is not None and p["val"] != []
+            how = {"pos": "positionally", "kw": "by-keyword", "kwonly": "by-keyword(keyword-only parameter)",
+                   "absent": "not-sent(the default applies)"}.get(p["by"]) or "*rest(%d further positional values)" % len(p["val"])
+            rep.count("task-parameter:passed:" + how + (",null" if p["by"] in ("pos", "kw", "kwonly") and p["val"] is None else ""))
+            if p.get("fresh"):
+                rep.count("task-parameter:class-defined-per-task-function(fresh)")
+            if p.get("default"):
+                rep.count("task-parameter:positional-with-default")
+            if has and param_raises_on_isinstance(p):
+                valued = True
+        if valued and not case.get("no_parse"):
+            rep.count("task-parameters:message-carries-a-value-for-a-class-that-refuses-isinstance(TypedDict/Protocol/metaclass):"
+                      "%s,%s" % (at, "ackable" if M["ackable"] in ACKABLE else "not-ackable"))
+        if i in got:
+            rep.count("task-parameters:function-was-called-with-its-arguments")
+            for p, tn in zip(P["list"], got[i]):
+                if p["by"] in ("pos", "kw", "kwonly") and p["val"] is not None:
+                    rep.count("task-parameter:function-got:" + ("value-as-sent(same type)" if tn == type(p["val"]).__name__
+                                                                  else "converted-value"))
 
 
 WIRE_P = 0.25      # fraction of the receive cases in which valid messages are NOT written the way make_payload always wrote them
@@ -1939,6 +2130,7 @@ def explore(ctx, rep, pid, cases, label, oracles, nontrivial):
         if stray:
             f("events outside any message's task", {}, stray)
         count_life(rep, c, o)
+        count_params(rep, c, o)
         if c["type"] == "recv":
             count_recv(rep, c, per, late)
             count_rereg(rep, c, per)
